@@ -199,7 +199,7 @@ class Interp3(Interp2):
         if meth == "strip" and not pos:
             return SStr(self.w.funcs["stripWs"](s.t))
         if meth == "lower" and not pos:
-            return SStr(self.w.funcs["lowerStr"](s.t))
+            return SStr(self.F("lowerStr", s.t))
         if meth == "join" and len(pos) == 1 and isinstance(pos[0], SAdt) and pos[0].sort == "CssVal" and self.implied(self.is_c("CssList", pos[0].t)):
             pos = [SAdt("StrList", self.acc("CssList", "items", pos[0].t))]
         if meth == "join" and len(pos) == 1 and isinstance(pos[0], SAdt) and pos[0].sort == "StrList":
